@@ -4,7 +4,7 @@ from __future__ import annotations
 
 import ast
 
-from sa.cfg import dominators, reachable, reaches
+from sa.cfg import all_paths_pass, dominators, reachable, reaches, specialize
 from sa.db import AnalysisError, FuncInfo, ancestors, bind_args, dotted, src, walk_local
 from sa.model import contains, enclosing
 from sa.variants import Variant, replace_once, sub_first, sub_once
@@ -306,6 +306,25 @@ def run(ctx) -> None:
             if not per_scope:
                 okl, whyl = False, "nested edges are not translated with a lookup built for their own container"
     rep.add("C20.R4", f"{gcls.qname}._build_name_to_id_lookup:per-scope", okl, lk.loc() if lk else gcls.loc(), whyl)
+    # every container is visited: for a node that has a nested graph, each path through the edge flattener passes the
+    # loop that adds its edges and the loop that recurses into its children (a container without edges of its own can
+    # still hold containers that have some)
+    ane = gcls.methods.get("_add_nested_edges")
+    if ane is None:
+        raise AnalysisError("Graph._add_nested_edges not found")
+    acfg = ctx.cfg(ane)
+    guard = {}
+    for t in acfg.nodes:
+        if t.kind == "test" and t.ast is not None and isinstance(t.ast, ast.Compare) and isinstance(t.ast.ops[0], (ast.Is, ast.IsNot)) and isinstance(t.ast.comparators[0], ast.Constant) and t.ast.comparators[0].value is None and isinstance(t.ast.left, ast.Name):
+            d_ = db.local_defs(ane).get(t.ast.left.id, [])
+            if any("nested_graph" in src(getattr(x, "value", None) or ast.Constant("")) for x in d_):
+                guard[src(t.ast)] = isinstance(t.ast.ops[0], ast.IsNot)
+    rec_loops = [n for n in acfg.nodes if n.kind == "for" and any(isinstance(c, ast.Call) and isinstance(c.func, ast.Attribute) and c.func.attr == ane.name for c in ast.walk(n.ast))]
+    edge_loops = [n for n in acfg.nodes if n.kind == "for" and any(isinstance(c, ast.Call) and isinstance(c.func, ast.Attribute) and c.func.attr == "add_edge" for c in ast.walk(n.ast))]
+    efa = specialize(guard, acfg)
+    okv = bool(guard) and bool(rec_loops) and bool(edge_loops) and all_paths_pass(acfg.entry, acfg.exit_return, rec_loops, efa) and all_paths_pass(acfg.entry, acfg.exit_return, edge_loops, efa)
+    early = next((n for n in acfg.nodes if n.kind == "stmt" and isinstance(n.ast, ast.Return) and n.lineno < (rec_loops[0].lineno if rec_loops else 10**9) and reaches(acfg.entry, n, efa)), None)
+    rep.add("C20.R4", f"{ane.qname}:every-container-visited", okv, f"{ane.module.rel}:{(early or ane.node).lineno}", "for every container the edges are added and the children are visited on all paths" if okv else f"the edge flattener can return (line {early.lineno if early else '?'}) before it has recursed into the container's children: a container with no edges between its own direct children hides the edges of every graph nested inside it — those dependencies are never drawn, in any expansion state")
     rep.add("C20.R4", f"{tf.qname}", ok, tf.loc(), "flat graph = nodes flattened from the root (parent None) + flattened edges" if ok else "to_flat_graph does not flatten nodes from the root and then edges")
 
     # ---- R6 -------------------------------------------------------------------------
